@@ -35,9 +35,13 @@ impl FindOut {
             None => "panic".to_string(),
         }
     }
-    /// number of diagnostic lines on stderr
+    /// number of diagnostics on stderr (messages start with one of a few fixed words; a file
+    /// name containing a newline must not be counted as a second message)
     pub fn diag_lines(&self) -> usize {
-        self.err.split(|b| *b == b'\n').filter(|l| !l.is_empty()).count()
+        self.err
+            .split(|b| *b == b'\n')
+            .filter(|l| l.starts_with(b"Error") || l.starts_with(b"find:") || l.starts_with(b"Failed") || l.starts_with(b"thread"))
+            .count()
     }
 }
 
